@@ -3,6 +3,7 @@ import LP.Driver.Interval
 import LP.Driver.FSI
 import LP.Driver.FSet
 import LP.Driver.Containers
+import LP.Driver.Poly
 import Std.Data.HashMap
 open LP LP.Driver
 
@@ -25,6 +26,8 @@ def checkLine (line : String) : String × String × Verdict :=
         | "hset" => checkHSet args r
         | "heap" => checkHeap args r
         | "pvec" => checkPVec args r
+        | "poly" => checkPoly op args r
+        | "up" => checkUP op args r
         | _ => Verdict.skip s!"unknown family {fam}"
       (idx, fam, v)
     | _ => ("?", "?", .skip "short line")
